@@ -125,9 +125,9 @@ func (w *World) CheckIdentity(o *Obs, prop string) []Violation {
 		open := map[string]int{}
 		for _, e := range o.Events {
 			switch e.Kind {
-			case "init-lookup":
+			case "init-lookup", "proc-lookup":
 				open[e.Subj+">"+e.Detail] = e.Seq
-			case "init-lookup-tolerated":
+			case "init-lookup-tolerated", "proc-lookup-tolerated":
 				tolerated = append(tolerated, span{open[e.Subj+">"+e.Detail], e.Seq})
 			}
 		}
